@@ -49,27 +49,50 @@ Lemma field_of_write st h k vs h' k' :
   field_of (write_field st h k vs) h' k' = if key_eqb (h, k) (h', k') then vs else field_of st h' k'.
 Proof. unfold field_of, write_field. cbn [flds klookup]. destruct (key_eqb (h, k) (h', k')); reflexivity. Qed.
 
-Lemma deps_add_dep_keep d n h m x :
-  In x (match alookup m d with Some l => l | None => [] end) ->
-  In x (match alookup m (add_dep d n h) with Some l => l | None => [] end).
+Lemma ver_eqb_eq a b : ver_eqb a b = true <-> a = b.
 Proof.
-  intros Hin. unfold add_dep. destruct (mem h (match alookup n d with Some l => l | None => [] end)); [exact Hin|].
-  destruct (Nat.eq_dec m n) as [->|Hne].
-  - rewrite alookup_aset_eq. apply in_or_app. left. exact Hin.
-  - rewrite (alookup_aset_neq n m _ _ Hne). exact Hin.
+  destruct a as [n|n k], b as [m|m j]; cbn [ver_eqb]; split; intros H; try discriminate.
+  - apply Nat.eqb_eq in H. subst. reflexivity.
+  - inversion H. apply Nat.eqb_refl.
+  - apply andb_true_iff in H. destruct H as [H1 H2]. apply Nat.eqb_eq in H1, H2. subst. reflexivity.
+  - inversion H. rewrite !Nat.eqb_refl. reflexivity.
+Qed.
+Lemma ver_eqb_refl a : ver_eqb a a = true.
+Proof. apply ver_eqb_eq. reflexivity. Qed.
+
+Lemma vlookup_cons_eq {A : Type} v (a : A) l : vlookup v ((v, a) :: l) = Some a.
+Proof. cbn [vlookup]. rewrite ver_eqb_refl. reflexivity. Qed.
+
+Lemma vlookup_cons_neq {A : Type} v w (a : A) l : w <> v -> vlookup w ((v, a) :: l) = vlookup w l.
+Proof.
+  intros Hne. cbn [vlookup]. destruct (ver_eqb v w) eqn:E; [|reflexivity].
+  apply ver_eqb_eq in E. congruence.
+Qed.
+
+Lemma ver_eq_dec (a b : ver) : {a = b} + {a <> b}.
+Proof. destruct (ver_eqb a b) eqn:E; [left; apply ver_eqb_eq; exact E|right; intros ->; rewrite ver_eqb_refl in E; discriminate]. Qed.
+
+Lemma deps_add_dep_keep d n h m x :
+  In x (match vlookup m d with Some l => l | None => [] end) ->
+  In x (match vlookup m (add_dep d n h) with Some l => l | None => [] end).
+Proof.
+  intros Hin. unfold add_dep. destruct (mem h (match vlookup n d with Some l => l | None => [] end)); [exact Hin|].
+  destruct (ver_eq_dec m n) as [->|Hne].
+  - rewrite vlookup_cons_eq. apply in_or_app. left. exact Hin.
+  - rewrite (vlookup_cons_neq n m _ _ Hne). exact Hin.
 Qed.
 
 Lemma deps_add_dep_new d n h :
-  In h (match alookup n (add_dep d n h) with Some l => l | None => [] end).
+  In h (match vlookup n (add_dep d n h) with Some l => l | None => [] end).
 Proof.
-  unfold add_dep. destruct (mem h (match alookup n d with Some l => l | None => [] end)) eqn:E.
+  unfold add_dep. destruct (mem h (match vlookup n d with Some l => l | None => [] end)) eqn:E.
   - apply mem_In in E. exact E.
-  - rewrite alookup_aset_eq. apply in_or_app. right. left; reflexivity.
+  - rewrite vlookup_cons_eq. apply in_or_app. right. left; reflexivity.
 Qed.
 
 Lemma deps_fold_keep vs : forall d h m x,
-  In x (match alookup m d with Some l => l | None => [] end) ->
-  In x (match alookup m (fold_left (fun d v => add_dep d (owner v) h) vs d) with Some l => l | None => [] end).
+  In x (match vlookup m d with Some l => l | None => [] end) ->
+  In x (match vlookup m (fold_left (fun d v => add_dep d v h) vs d) with Some l => l | None => [] end).
 Proof.
   induction vs as [|v r IH]; intros d h m x Hin; cbn [fold_left]; [exact Hin|].
   apply IH. apply deps_add_dep_keep. exact Hin.
@@ -77,7 +100,7 @@ Qed.
 
 Lemma deps_fold_new vs : forall d h v,
   In v vs ->
-  In h (match alookup (owner v) (fold_left (fun d v => add_dep d (owner v) h) vs d) with Some l => l | None => [] end).
+  In h (match vlookup v (fold_left (fun d v => add_dep d v h) vs d) with Some l => l | None => [] end).
 Proof.
   induction vs as [|v0 r IH]; intros d h v Hin; [contradiction|]. cbn [fold_left].
   destruct Hin as [->|Hin].
@@ -88,7 +111,7 @@ Qed.
 Lemma deps_of_write_keep st h k vs m x : In x (deps_of st m) -> In x (deps_of (write_field st h k vs) m).
 Proof. unfold deps_of, write_field. cbn [deps]. apply deps_fold_keep. Qed.
 
-Lemma deps_of_write_new st h k vs v : In v vs -> In h (deps_of (write_field st h k vs) (owner v)).
+Lemma deps_of_write_new st h k vs v : In v vs -> In h (deps_of (write_field st h k vs) v).
 Proof. unfold deps_of, write_field. cbn [deps]. apply deps_fold_new. Qed.
 
 (* ---------- the invariant --------------------------------------------------------------------------- *)
@@ -105,7 +128,7 @@ Record Inv (st : fstate) : Prop := mkInv {
   (* every handed-out version is current *)
   i_current : forall h k v, In v (field_of st h k) -> cur (reg st) (owner v) = Some v;
   (* holders are recorded as dependents *)
-  i_deps : forall h k v, In v (field_of st h k) -> In h (deps_of st (owner v));
+  i_deps : forall h k v, In v (field_of st h k) -> In h (deps_of st v);
   (* a holder still in creation holds unpublished versions only of components at or below itself *)
   i_stack : forall h k v, In v (field_of st h k) -> alookup (owner v) (L1 (reg st)) = None ->
                           In h (creating (reg st)) -> at_or_above h (owner v) (creating (reg st));
@@ -245,7 +268,7 @@ Proof.
     + rewrite He in Hc. unfold cur in Hc. rewrite H1, H2 in Hc. discriminate.
     + rewrite (cur_promote_neq (reg st) n v _ Hne). exact Hc.
   - intros h k w Hw. change (field_of (set_reg st (get_promote (reg st) n v)) h k) with (field_of st h k) in Hw.
-    change (deps_of (set_reg st (get_promote (reg st) n v)) (owner w)) with (deps_of st (owner w)). eapply I7; exact Hw.
+    change (deps_of (set_reg st (get_promote (reg st) n v)) w) with (deps_of st w). eapply I7; exact Hw.
   - intros h k w Hw. change (field_of (set_reg st (get_promote (reg st) n v)) h k) with (field_of st h k) in Hw.
     apply (I8 h k w Hw).
   - intros h k w Hw. apply (I9 h k w Hw).
@@ -316,7 +339,7 @@ Proof.
     + rewrite (Hall h k w Hw He), Ho. apply cur_publish_eq.
     + rewrite (cur_publish_neq (reg st) n v _ Hne). apply (I6 h k w Hw).
   - intros h k w Hw. change (field_of (set_reg st (end_create_ok (reg st) n v)) h k) with (field_of st h k) in Hw.
-    change (deps_of (set_reg st (end_create_ok (reg st) n v)) (owner w)) with (deps_of st (owner w)). eapply I7; exact Hw.
+    change (deps_of (set_reg st (end_create_ok (reg st) n v)) w) with (deps_of st w). eapply I7; exact Hw.
   - intros h k w Hw HL1 Hin.
     change (field_of (set_reg st (end_create_ok (reg st) n v)) h k) with (field_of st h k) in Hw.
     assert (Hon : owner w <> n).
@@ -543,16 +566,20 @@ Section Spec.
       destruct (cur (reg st2) n) as [e|] eqn:Ecur.
       + (* an early reference exists *)
         destruct w as [wv|].
-        * destruct (stale_dependents vt st2 n) as [|d0 dr] eqn:Est; [|discriminate].
+        * destruct (stale_dependents vt st2 n e) as [|d0 dr] eqn:Est; [|discriminate].
           inversion H; subst st' v. apply Hpub; [exact Hown|].
           intros h k x Hx Hox. exfalso.
-          pose proof (i_deps st2 HI2 h k x Hx) as Hdep. rewrite Hox in Hdep.
+          pose proof (i_deps st2 HI2 h k x Hx) as Hdep.
+          (* every handed-out version of n is the early reference e *)
+          assert (Hxe : x = e).
+          { pose proof (i_current st2 HI2 h k x Hx) as Hc. rewrite Hox, Ecur in Hc. inversion Hc; reflexivity. }
+          rewrite Hxe in Hdep.
           assert (Hnot : (if fix_c03 vt then Nat.eqb h n || negb (is_creating (reg st2) h)
                           else negb (is_creating (reg st2) h)) = false).
           { destruct (if fix_c03 vt then Nat.eqb h n || negb (is_creating (reg st2) h)
                       else negb (is_creating (reg st2) h)) eqn:Ep; [|reflexivity].
-            assert (Hin : In h (stale_dependents vt st2 n)).
-            { unfold stale_dependents. apply filter_In. split; [exact Hdep|exact Ep]. }
+            assert (Hin : In h (stale_dependents vt st2 n e)).
+            { unfold stale_dependents. apply filter_In. split; [apply in_or_app; left; exact Hdep|exact Ep]. }
             rewrite Est in Hin. contradiction. }
           rewrite Hfix in Hnot. apply orb_false_iff in Hnot. destruct Hnot as [Hhn Hcre].
           apply Nat.eqb_neq in Hhn. apply negb_false_iff in Hcre. unfold is_creating in Hcre. apply mem_In in Hcre.
